@@ -194,6 +194,75 @@ def uses_of(T, built):
     return us
 
 
+def pipeline_universe(ck):
+    """MC_Pipeline: convert-then-validate as transcribed (Convert!ToInt, Constraints!RunRule) against Values!Conforms over every abstract
+    source x every int rule; the two TLA+-defined universes are exported by TLC and their product is run on real constrained types"""
+    import os
+    import shutil
+    from . import c12
+    from .c02 import make_rule
+    mc = tlc.run("MC_Pipeline", "MC_Pipeline.cfg")
+    ck.mc(mc, "MC pipeline")
+    if mc.invariant_violated:
+        ck.count("model_only_counterexamples")
+        ck.note("model-level counterexample: convert-then-validate as transcribed violates %s" % mc.invariant_violated)
+    op = tlc.run("MC_Pipeline", "MC_Pipeline_open.cfg")
+    if op.invariant_violated != "M_Conforms":
+        raise MachineryError("MC_Pipeline_open.cfg: the open point (lax multiple_of after a strict bound) is not reproduced at model level")
+    wit = tlc.run("MC_Pipeline", "MC_Pipeline_witness.cfg", workers=1, extra=("-continue",))
+    missing = [w for w in ("W_Accepts", "W_RejectsByConstraint", "W_RejectsByConversion") if "Invariant %s is violated" % w not in wit.output]
+    if missing:
+        raise MachineryError("vacuity: %s unreachable in MC_Pipeline" % missing)
+    d = tlc.scratch("pl-")
+    try:
+        o1, o2 = os.path.join(d, "sources.ndjson"), os.path.join(d, "rules.ndjson")
+        tlc.run("Export_Convert", "Export_Convert.cfg", env={"OUT_CASES": o1}, workers=1)
+        tlc.run("Export_Constraints", "Export_Constraints.cfg", env={"OUT_CASES": o2}, workers=1)
+        srcs = [json.loads(l) for l in open(o1) if l.strip()]
+        rules = [json.loads(l) for l in open(o2) if l.strip()]
+    finally:
+        shutil.rmtree(d, ignore_errors=True)
+    if len(srcs) * len(rules) != mc.distinct:
+        raise MachineryError("exported universe (%d x %d) is not the one TLC explored (%d states)" % (len(srcs), len(rules), mc.distinct))
+    recs = []
+    for ri, r in enumerate(rules):
+        cons = []
+        for c in r["cons"]:
+            k = make_rule("int", [(c["c"], c["n"])])["cons"][0]
+            k["lax"] = c["lax"]
+            cons.append(k)
+        T = gen.rule("int", cons)
+        t = gen.build(T)
+        Tt = gen.strip(T)
+        for si, sr in enumerate(srcs):
+            x = c12.concretise(sr["x"])
+            try:
+                v = t(x)
+                ok, vr = True, alpha(v)
+            except Exception:
+                ok, vr = False, alpha(None)
+            src = {"x": alpha(x), "fx": c12.facts(x)} if sr["x"]["k"] != "set" else sr
+            recs.append({"id": "p%d-%d" % (ri, si), "T": Tt, "v": vr, "ok": ok, "src": src, "input": repr(x)[:40], "out": repr(v)[:40] if ok else "",
+                         "open": any(c["c"] == "multiple_of" and c["lax"] for c in r["cons"]) and any(c["c"] in ("gt", "ge", "lt", "le") and not c["lax"] for c in r["cons"])})
+    res = tlc.judge("Trace_Pipeline", "Trace_Pipeline.cfg", [{k: v for k, v in x.items() if k not in ("input", "out", "open")} for x in recs], workers=8)
+    ck.mc(res, "Trace pipeline")
+    if res.distinct != len(recs):
+        raise MachineryError("trace acceptance (pipeline universe): TLC visited %d states, expected %d" % (res.distinct, len(recs)))
+    ck.judged(len(recs))
+    ck.count("universe_cases_replayed_into_code", len(recs))
+    byid = {x["id"]: x for x in recs}
+    for t_ in res.tagged("VIOL"):
+        x = byid[t_[1]]
+        key = "C01|Conforms|lax_multiple_of-after-strict-bound" if x["open"] else "C01|Conforms|pipeline-universe|%s" % "+".join(("lax_" if c["lax"] else "") + c["c"] for c in x["T"]["cons"])
+        ck.violation(key, "Conforms", x)
+    dv = res.tagged("DIV")
+    if dv:
+        ck.count("divergences", len(dv))
+        for t_ in dv[:6]:
+            x = byid[t_[1]]
+            ck.note("divergence: convert-then-validate as transcribed differs from the code on %s with %s -> %s" % (x["input"], [c["c"] for c in x["T"]["cons"]], x["out"] or "rejected"))
+
+
 def main():
     ck = Check("C01")
     thorough = ck.tier == "thorough"
@@ -231,6 +300,7 @@ def main():
                 ck.count("not_judged: outside the exact universe")
                 continue
             records.append({"id": "c01-%d" % n, "T": Tt, "v": vr, "use": use, "input": repr(x)[:60], "out": repr(v)[:60], "shape": shape(T)})
+    pipeline_universe(ck)
     byid = {r["id"]: r for r in records}
     res = tlc.judge("Trace_Conform", "Trace_Conform.cfg", records, workers=16)
     ck.mc(res, "Trace")
